@@ -35,12 +35,12 @@ Variants ==
   \cup {O(op, "", p, 0) : op \in {"filter", "remove"}, p \in {1, 2, 4}}
   \cup {O("mappart", w, 0, 0) : w \in {"f", "bag", "item"}}
   \cup {O("pluck", "pair", p, 0) : p \in {0, 1}} \cup {O("pluck", "default", 1, 0)}
-  \cup {O("distinct", w, 0, 0) : w \in {"", "key"}}
+  \cup {O("distinct", w, 0, 0) : w \in {"", "key", "key0", "keylen"}}
   \cup {O("frequencies", w, 0, 0) : w \in {"", "sort"}}
-  \cup {O("topk", w, p, 0) : w \in {"", "neg"}, p \in {0, 1, 2, 7}}
-  \cup {O("fold", w, 0, 0) : w \in {"add", "add0", "cnt", "cat"}}
+  \cup {O("topk", w, p, 0) : w \in {"", "neg"}, p \in {0, 1, 2, 7}} \cup {O("topk", "half", p, 0) : p \in {1, 2, 3}}
+  \cup {O("fold", w, 0, 0) : w \in {"add", "add0", "cnt", "sq", "cat"}}
   \cup {O("reduction", w, 0, 0) : w \in {"sum", "len", "uniq"}}
-  \cup {O("foldby", w, p, 0) : w \in {"add", "add0", "add00", "cnt"}, p \in {2, 3}}
+  \cup {O("foldby", w, p, 0) : w \in {"add", "add0", "add00", "cnt", "sq"}, p \in {2, 3}}
   \cup {O("groupby", "", p, 0) : p \in {0, 2, 3}}
   \cup {O("join", w, p, 0) : w \in {"list", "bag", "delayed"}, p \in {0, 2}}
   \cup {O("accumulate", w, 1, q) : w \in {"add", "nc"}, q \in {0, 1}}
@@ -137,7 +137,14 @@ ChunkCombine ==
            [] Op.op = "all" -> Want.v = (\A b \in DOMAIN ps : \A i \in DOMAIN ps[b] : ps[b][i] # 0)
            [] Op.op = "distinct" /\ Op.w = "" ->
                 SameBag(Distinct(Flat([b \in DOMAIN ps |-> Distinct(ps[b])])), Want.v)
-           [] Op.op = "topk" ->
+           [] Op.op = "distinct" /\ Op.w # "" ->          \* first representatives: per partition, then over the partials
+                LET els == CASE Op.w = "key" -> Sq [] Op.w = "key0" -> Pairs(Sq) [] Op.w = "keylen" -> Nest(Sq)
+                    eps == SplitBy(els, lay)
+                IN DistinctW(Op.w, Flat([b \in DOMAIN eps |-> DistinctW(Op.w, eps[b])])) = Want.v
+           [] Op.op = "topk" /\ Op.w = "half" ->
+                \* the k largest keys of the partitions' k largest keys are the k largest keys
+                TopK(Op.p, Flat([b \in DOMAIN ps |-> TopK(Op.p, [i \in DOMAIN ps[b] |-> ps[b][i] \div 2])])) = Want.v
+           [] Op.op = "topk" /\ Op.w # "half" ->
                 Want.v = (IF Op.w = "neg" THEN BottomK(Op.p, Flat([b \in DOMAIN ps |-> BottomK(Op.p, ps[b])]))
                           ELSE TopK(Op.p, Flat([b \in DOMAIN ps |-> TopK(Op.p, ps[b])])))
            [] Op.op = "frequencies" ->
@@ -147,7 +154,7 @@ ChunkCombine ==
                 \A i \in DOMAIN Want.v :
                    Want.v[i][2] = SumS([b \in DOMAIN ps |->
                                         LET mem == Members(Op.p, ps[b], Want.v[i][1])
-                                        IN IF Op.w = "cnt" THEN Len(mem) ELSE SumS(mem)])
+                                        IN FoldOf(Op.w, mem)])
            [] Op.op = "mean" /\ Sq # <<>> -> Want.v = RNorm(x1, cnt)
            [] Op.op \in {"var", "std"} /\ Len(Sq) > Op.q ->
                 \* chunk.var_aggregate: ((x2 / n) - (x / n)^2) * n / (n - ddof)
